@@ -143,7 +143,7 @@ class DirectoryResourcePopulator:
 
             if not pt.isdir(full_dir_path):
                 raise ValueError(
-                    f"Trying to gather resources from {full_path}, but it's "
+                    f"Trying to gather resources from {full_dir_path}, but it's "
                     'not a directory')
 
             for full_file_path in glob.iglob(pt.join(full_dir_path, '**'),
